@@ -73,7 +73,7 @@ def lean_obligations(prop):
     cur = None
     # output: "'name' depends on axioms: [a, b]" or "'name' does not depend on any axioms"
     flat = out.replace("\n", " ")
-    for m in re.finditer(r"'([^']+)' (does not depend on any axioms|depends on axioms: \[([^\]]*)\])", flat):
+    for m in re.finditer(r"'(\S+)' (does not depend on any axioms|depends on axioms: \[([^\]]*)\])", flat):
         axs = [a.strip() for a in (m.group(3) or "").split(",") if a.strip()]
         res["audit"][m.group(1)] = axs
     for n in names:
